@@ -373,6 +373,12 @@ def run(ctx, driver):
         if ctx.out_of_time():
             break
         for kind in KINDS:
+            # the caller owns what it is handed (the frame computers multiply windows into buffers in place):
+            # scribble on one result, then ask a new instance of the class for the same width
+            try:
+                np_cls[kind]().get_impulse_response(width)[...] = -535.0
+            except (ValueError, TypeError):
+                pass
             w = np_cls[kind]().get_impulse_response(width)
             case = dict(window=kind, width=width)
             ctx.case(case, nontrivial=width > 0, kind="win_" + kind)
@@ -389,6 +395,10 @@ def run(ctx, driver):
         case = dict(window="gamma", order=order, peak=peak, width=width)
         ctx.case(case, nontrivial=width > 1, kind="gamma_order_%s" % ("0" if order == 0 else "1" if order == 1 else ">=2"))
         try:
+            try:
+                gamma_cls(order, peak).get_impulse_response(width)[...] = -535.0
+            except (ValueError, TypeError, IndexError):
+                pass
             w = gamma_cls(order, peak).get_impulse_response(width)
             kind = "ok"
         except Exception as e:  # noqa
